@@ -378,6 +378,26 @@ def w_aspath(w, v):  # RFC 4271 4.3 b, RFC 6793 4.2.2
     return out
 
 
+def w_aspath_seq_set(w, v):  # `as-path [ a ] ( b )`: one AS_SEQUENCE then one AS_SET (RFC 4271 4.3 b); RFC 6793 4.2.2 for a 2-octet peer
+    segs = O.as_path(w.need(O.AS_PATH), w.asn4, w.d)
+    out = [('.segment-types', [t for t, _ in segs], [O.AS_SEQUENCE, O.AS_SET]), ('.segment-sizes', [len(a) for _, a in segs], [1, 1])]
+    if [len(a) for _, a in segs] != [1, 1]:
+        return out
+    for i, x in enumerate(v):
+        out.append(('asn%d' % i, segs[i][1][0], x if w.asn4 else narrow(x)))
+    if not w.asn4:
+        big = s_or(*[x > M16 for x in v])
+        if O.AS4_PATH in w.by:
+            segs4 = O.as_path(w.by[O.AS4_PATH], True, w.d, O.AS4_PATH)
+            out.append(('.as4-segment-types', [t for t, _ in segs4], [O.AS_SEQUENCE, O.AS_SET]))
+            if [len(a) for _, a in segs4] == [1, 1]:
+                for i, x in enumerate(v):
+                    out.append(('as4-asn%d' % i, segs4[i][1][0], x))
+        else:
+            out.append(('.as4-path-missing', big, False))
+    return out
+
+
 AGG_IP = bytes([192, 0, 2, 9])
 
 
@@ -695,6 +715,8 @@ case('static/as-path-bare', 'as-path', lambda v: R4 + ['as-path', (v[0],)], [('a
 case('static/as-path-2', 'as-path', lambda v: R4 + ['as-path', '[', (v[0],), (v[1],), ']'], [('asn0', rng(1, M32)), ('asn1', rng(1, M32))], w_aspath)
 case('static/as-path-3', 'as-path', lambda v: R4 + ['as-path', '[', (v[0],), (v[1],), (v[2],), ']'],
      [('asn0', rng(1, M32)), ('asn1', rng(1, M32)), ('asn2', rng(1, M32))], w_aspath, quick=False)
+case('static/as-path-seq-set', 'as-path', lambda v: R4 + ['as-path', '[', (v[0],), ']', '(', (v[1],), ')'], [('asn0', rng(1, M32)), ('asn1', rng(1, M32))],
+     w_aspath_seq_set, shapes=FOUR)
 case('static/aggregator', 'aggregator', lambda v: R4 + ['aggregator', '(', (v[0], ':192.0.2.9'), ')'], [('aggregator-as', rng(1, M32))], w_aggregator, shapes=ALL8)
 case('static/community', 'community', lambda v: R4 + ['community', (v[0], ':', v[1])], [('high', rng(0, M16)), ('low', rng(0, M16))], w_community_pair)
 case('static/community-32bit', 'community', lambda v: R4 + ['community', (v[0],)], [('value', rng(0, M32))], w_community_int)
@@ -1081,6 +1103,15 @@ def w_two_masks(w, v):
     return [('prefix-length', mask, v[0])]
 
 
+def w_vpn_label(w, v):  # a VPN route keeps BOTH its label and its route distinguisher (RFC 4364 4.3.4), also when `split` multiplies it
+    pid, labels, rd, bits, prefix = labelled(w, True)
+    out = [('.label-count', len(labels), 1)]
+    if len(labels) == 1:
+        out.append(('label0', labels[0][0], v[0]))
+    out += [('administrator', O.u16(rd, 2), v[1]), ('assigned', O.u32(rd, 4), v[2])]
+    return out
+
+
 class Sample(Case):
     """a fixed text: expect in ('accept', 'refuse', None = either); values: what the reader compares with"""
 
@@ -1127,6 +1158,9 @@ SAMPLES = {
         S('attribute', 'attribute [ 0x99 0xc0 0x010 ]'), S('attribute', 'attribute [ 0x99 0xc0 ]'), S('attribute', 'attribute 0x99'),
         S('bgp-prefix-sid', 'bgp-prefix-sid [ ]'), S('bgp-prefix-sid', 'bgp-prefix-sid 5'), S('bgp-prefix-sid', 'bgp-prefix-sid [ 5 , [ ( 1 ) ] ]'),
         S('split', 'split /25', 'accept', w_two_masks, [25], routes=2), S('split', 'split /33'), S('split', 'split /2', 'accept'), S('split', 'split 25', 'refuse'),
+        S('split', 'label 100 split /25', 'accept', w_label, [100], routes=2, **MPLS),
+        S('split', 'rd 65000:1 label 100 split /25', 'accept', w_vpn_label, [100, 65000, 1], routes=2, **VPN),
+        S('split', 'rd 65000:1 label 100', 'accept', w_vpn_label, [100, 65000, 1], **VPN),
         S('split', 'split /-1'), S('watchdog', 'watchdog announce', 'refuse'), S('name', 'name x y', 'refuse'),
         # lists which are never closed: the words run out (the tokeniser then answers '' for ever)
         S('community', 'community [ 1:2', 'refuse'), S('large-community', 'large-community [ 1:2:3', 'refuse'), S('extended-community', 'extended-community [ target:1:2', 'refuse'),
